@@ -145,6 +145,13 @@ def run_big(shard, tier, h, res, known):
             if got != exp:
                 res.fail({"clause": "big-count", "family": "big", "rule": doc, "run_length": k, "expected": exp, "observed": got,
                           "size": k}, known)
+            elif want:
+                # the reported text must be exactly the k+2 records of the window (no cap, no cut)
+                full = h.match(mop, path)
+                exp_text = rm.encode([e1.norm_inst(*x) for x in att])
+                if full != [exp_text]:
+                    res.fail({"clause": "big-text", "family": "big", "rule": doc, "run_length": k, "expected": f"{len(exp_text)} characters: the whole window",
+                              "observed": [f"{len(t)} characters ending {t[-30:]!r}" for t in full], "size": k}, known)
 
 
 def shards(tier):
